@@ -85,6 +85,13 @@ type Chan struct {
 	inner    channel.Channel
 	Yield    int  // Gosched calls between entry and exit of each operation
 	LogSends bool // report every Send entry through onEvent
+	// Fragile makes Send behave like the library's own stream framings, which
+	// assemble each frame in one buffer shared by all Send calls and then write
+	// it out (slowly): the channel contract allows that, because at most one
+	// Send may be in progress.  Two overlapping Sends then transmit one message
+	// twice and lose the other.
+	Fragile bool
+	frame   []byte
 
 	sendIn, recvIn, closeIn atomic.Int32
 	nSend, nRecv, nClose    atomic.Int32
@@ -150,6 +157,20 @@ func (c *Chan) Send(msg []byte) error {
 			c.onEvent("sendfault", cp, ErrInjected)
 		}
 		return ErrInjected
+	}
+	if c.Fragile {
+		c.mu.Lock()
+		c.frame = append(c.frame[:0], msg...)
+		c.mu.Unlock()
+		// No fake-time sleep here: a sound server calls Send with its mutex held,
+		// and goroutines waiting for a mutex are not durably blocked, so the
+		// bubble's clock could never advance.
+		for i := 0; i < 4; i++ {
+			runtime.Gosched()
+		}
+		c.mu.Lock()
+		msg = append([]byte(nil), c.frame...)
+		c.mu.Unlock()
 	}
 	err := c.inner.Send(msg)
 	c.yield()
